@@ -41,6 +41,14 @@ def Recv.romPages (r : Recv) : Nat := if r.m128 then 2 else 1
 def Recv.write7ffd (r : Recv) (v : Nat) : Recv :=
   if r.locked then r else { r with bank := v % 8, locked := (v / 32) % 2 = 1 }
 
+/-- `ZXController::restore_7ffd`: the 128K machine is unlocked first, then `write_7ffd` -/
+def Recv.restore7ffd (r : Recv) (v : Nat) : Recv :=
+  (if r.m128 then { r with locked := false } else r).write7ffd v
+
+/-- how a snapshot's latch value reaches the machine: `restore_7ffd` where the tree has it -/
+def Recv.load7ffd (fx : Fix) (r : Recv) (v : Nat) : Recv :=
+  if fx .snaRestore then r.restore7ffd v else r.write7ffd v
+
 def PAGE : Nat := 16384
 
 /-! ### SNA -/
@@ -61,7 +69,7 @@ def sna128 (fx : Fix) (r : Recv) : M Unit := do
   let _ ← seekM (.start SNA_48K_SIZE)
   let t ← readExactM 4
   let a ← getAsset
-  let r' := r.write7ffd (a.u8 (t + 2))
+  let r' := r.load7ffd fx (a.u8 (t + 2))
   let _ ← seekM (.start 27)
   let pb := r'.bank
   loadPages fx r' .snaPage .machineNotSupported [5, 2, pb]
@@ -259,6 +267,8 @@ def szxLoad (fx : Fix) (r : Recv) (inflate : Inflate) : M Unit := do
   guardM (decide (a.window h 4 ≠ [0x5A, 0x58, 0x53, 0x54])) .invalidSzx
   let mid := a.u8 (h + 6)
   guardM (decide (2 < mid)) .machineNotSupported
+  -- the file's machine model must be the emulated one (where the tree checks it)
+  guardM (fx .szxMachine && (decide (mid = 2) != r.m128)) .machineNotSupported
   let _ ← seekM (.start 8)
   szxWalk fx { r := r, mid := mid, inflate := inflate } fileLen (a.len + 1) 8 r.ay
   tick              -- refresh_memory_dependent_devices
